@@ -131,9 +131,22 @@ class Env:
         except Violation:
             raise                      # (found by the harness inside the call, e.g. vlib.ops.invoke: not an outcome of the call)
         except Exception as e:  # noqa: BLE001
-            r = ("exc", e)
+            r = ("exc", _untraced(e))
         except BaseException as e:  # noqa: BLE001  (injected interruptions)
-            r = ("exc", e)
+            r = ("exc", _untraced(e))
         finally:
             self.net.end_call(i)
         return r
+
+
+def _untraced(e):
+    """the exception without its tracebacks: an application that has handled an error does not keep the frames (and, through them,
+    the library's objects - a discarded connection, a pooled client) alive; what the library does when those are freed, or when
+    their memory is used again, is part of what the checks see"""
+    seen = set()
+    x = e
+    while x is not None and id(x) not in seen:
+        seen.add(id(x))
+        x.__traceback__ = None
+        x = x.__context__ or x.__cause__
+    return e
